@@ -80,6 +80,20 @@ def cases(r, tier):
         out.append(("unused", unused_prog([r.choice(UNUSED) for _ in range(r.randint(2, 6))])))
     for k in range(4):
         out.append(("after-ret", after_ret_prog(k)))
+    # every statement form as DEAD code after ret / break / continue, alone and combined: function literals and closures,
+    # blocks, ifs, loops, case, definitions, assignments, calls (a Lua `return`/`break` must end its block: whatever the
+    # emitter does about code after it has to keep every construct balanced)
+    dead = ["sum := 0", "add := fn x: int do\n    sum2 = sum2 + x\n  end", "inner :: fn -> int do\n    ret 5\n  end", "do\n    print(1)\n  end",
+            "if n > 0 do\n    print(2)\n  else do\n    print(3)\n  end", "loop n > 0 do\n    break\n  end", "print(n)", "sum2 = n",
+            "k :: fn -> fn -> int do\n    fn -> int do ret 1 end\n  end", "case e do\n    A v -> print(v) end\n    else print(0) end\n  end", "ret 9", "n"]
+    term = ["ret 0", "ret n", "if n > 5 do\n    ret 1\n  else do\n    ret 2\n  end"]
+    combos = [[d] for d in dead] + [[r.choice(dead) for _ in range(r.randint(2, 4))] for _ in range(10 if tier == "quick" else 120)]
+    for ds in combos:
+        t = r.choice(term)
+        body = "".join("  %s\n" % d for d in ds)
+        out.append(("after-ret-forms", HEADER + "E :: enum A int, B end\nsum2 := 0\ng :: fn n: int, e: E -> int do\n  %s\n%s  7\nend\nstart :: fn do\n  print(g(1, E.A 2))\n  print(g(9, E.B))\nend\n" % (t, body)))
+        out.append(("after-break-forms", HEADER + "E :: enum A int, B end\nsum2 := 0\nstart :: fn do\n  n := 3\n  e := E.A 1\n  loop n > 0 do\n    n -= 1\n    %s\n%s  end\n  print(n)\nend\n"
+                    % (r.choice(["break", "continue"]), "".join("    %s\n" % d.replace("\n  ", "\n    ") for d in ds if not d.startswith("ret")))))
     for n in ([50, 150, 190, 210, 400] if tier == "quick" else [50, 150, 190, 199, 200, 201, 210, 400, 1000]):
         out.append(("long-body", long_body(n)))
     for n in ([100, 190, 210] if tier == "quick" else [100, 190, 198, 199, 200, 210, 400]):
